@@ -156,6 +156,7 @@ func TestCheck(t *testing.T) {
 		sizeLimits(r)
 	}
 	concurrentAdmission(r, t)
+	concurrentLimiter(r, t)
 	r.Assume("store level: histories in which operator requeue lifted the active count above max_depth are not extended (property quantifier)")
 	r.Assume("memory-pressure refusals need > 1000 retained items and are outside the small scope; the refusal path shares the tentative-eviction rollback that the duplicate-id refusals exercise")
 	r.Assume("rate limiter: arrival gaps are multiples of 1/4 s and rates are powers of two, so the float arithmetic of the bound is exact; windows that span a reload are excluded (property quantifier)")
@@ -195,6 +196,54 @@ func concurrentAdmission(r *runner.Run, t *testing.T) {
 				VioKey: func(f *sched.Failure) string { return "concurrent-admission:" + backend }})
 		}
 	}
+}
+
+// concurrentLimiter: requests race on one limiter while the clock moves DURING the requests (a request samples
+// the time before it takes the limiter lock): over the whole execution at most burst + rps x elapsed are admitted.
+func concurrentLimiter(r *runner.Run, t *testing.T) {
+	cfg := rlCfg{name: "global(1,1)", globalRPS: 1, globalBurst: 1, effRPS: 1, effBurst: 1}
+	body := func(x *sched.Exec) {
+		st := queue.NewMemoryStore()
+		a, err := app.VerifBoot(app.VerifBootOptions{Dir: filepath.Join(runner.Scratch(), "c12lim"), ConfigText: dsl(900, cfg), Store: st})
+		if err != nil {
+			x.Err = err
+			return
+		}
+		for i := 0; i < 4; i++ {
+			x.Go(fmt.Sprintf("r%d", i), func() {
+				if a.VerifAllowIngress("/p") {
+					x.Logf("status=202")
+				} else {
+					x.Logf("status=429")
+				}
+			})
+		}
+		x.Go("clock", func() { x.Advance(sec) })
+		x.Run()
+		x.Finish()
+		a.Shutdown()
+	}
+	oracle := func(x *sched.Exec) {
+		n := 0
+		for _, l := range x.Log {
+			switch l {
+			case "status=202":
+				n++
+			case "status=429":
+			default:
+				sched.Failf("unexpected answer %s", l)
+			}
+		}
+		// elapsed virtual time is exactly 1 s: burst 1 + 1 rps x 1 s = 2
+		if n > 2 {
+			sched.Failf("limiter (rps 1, burst 1) admitted %d requests within 1 s of virtual time (bound burst + rps x window = 2)", n)
+		}
+		if n == 0 {
+			sched.Failf("limiter with a full bucket admitted nothing")
+		}
+	}
+	schedrun.Run(r, t, schedrun.Spec{Name: "limiter-concurrent", Bound: runner.Pick(r, 2, -1), Shards: 16, Budget: runner.Pick(r, 20*time.Second, 5*time.Minute), Body: body, Oracle: oracle,
+		VioKey: func(f *sched.Failure) string { return "ratelimit:concurrent" }})
 }
 
 // ---- (B) rate limiter ------------------------------------------------------------
